@@ -671,7 +671,11 @@ class Exec:
         for c in st.pc: self.solver.add(c)
         self.solver.add(cond); r = self.solver.check(); self.solver.pop()
         self.stats['queries'] += 1; self.stats['solver_s'] += time.time() - t
-        if r == z3.unknown: raise Unsupported('solver unknown on branch feasibility')
+        if r == z3.unknown:
+            # opt-in: follow the branch anyway.  The path set becomes an over-approximation; every obligation carries the path condition into its own query, so a path that
+            # cannot be taken gives unsat there and never a counterexample the solver did not find satisfiable.
+            if getattr(self, 'unknown_is_feasible', False): self.stats['unknown_branches'] = self.stats.get('unknown_branches', 0) + 1; return True
+            raise Unsupported('solver unknown on branch feasibility')
         return r == z3.sat
     def as_bool(self, c):
         if isinstance(c, int): return bool(c)
